@@ -86,6 +86,7 @@ def evaluate_quantum(ctx, cases, prefix):
 
 def case_json(c):
     d = dict(cap=c["cap"], fuel=c["fuel"], subs=c["subs"], tag=c.get("tag", ""),
+             hostlines=bool(c.get("hostlines")), hardware=bool(c.get("hardware")),
              implementation=[dict(out=r["out"], pc=r["pc"], state=r["state"], events=r.get("events", []))
                              for r in c.get("results", [])])
     if "script" in c:
@@ -98,9 +99,25 @@ def generate(ctx, n_random, n_aimed, fuel):
     cases = []
     for t in H.FAULT_TARGETS:
         for _ in range(n_aimed):
-            cases.append(H.gen_fault_case(rng, t, fuel=fuel))
+            c = H.gen_fault_case(rng, t, fuel=fuel)
+            # instructions carry the host-program line of the SDK's line tracker (HostLine) in 3 of 4 aimed cases
+            c["hostlines"] = rng.random() < 0.75
+            cases.append(c)
     for _ in range(n_random):
-        cases.append(H.gen_case(rng, fuel=fuel))
+        c = H.gen_case(rng, fuel=fuel)
+        c["hostlines"] = rng.random() < 0.5
+        cases.append(c)
+    return cases
+
+
+def generate_hardware(ctx, n_random, n_aimed, fuel):
+    """the same streams with every immediate inside the hardware width, to be run with
+    set_is_using_hardware(True): the listed semantics must hold in that configuration too"""
+    cases = generate(ctx, n_random, n_aimed, fuel)
+    for c in cases:
+        H.narrow_case(c)
+        c["hardware"] = True
+        c["tag"] = "hw:" + c.get("tag", "")
     return cases
 
 
@@ -138,6 +155,8 @@ def run(ctx):
                       "unsatisfied wait_* never completes (observed as 'blocked' through _do_wait)")
     ctx.assume.append("quantum instruction effects, EPR instructions, hardware-mode width checks (get_is_using_hardware) "
                       "and logging are outside this property's model; the physical qubit chosen by qalloc is not compared")
+    ctx.assume.append("hardware configuration pass: only cases whose values stay inside the 32-bit widths are compared "
+                      "(a case in which a value overflows -- OverflowError -- is discarded and counted)")
     ctx.assume.append("Python without -O: the executor's `assert x is not None` checks are active")
     stats, kinds = {}, {}
     if res is not None:
@@ -170,6 +189,26 @@ def run(ctx):
         ctx.samples = [case_json(c) for c in (cases[0], cases[len(H.FAULT_TARGETS) * 3], cases[-1], cases[-2])]
         for s in ctx.samples:
             s.pop("implementation", None)
+    # hardware configuration (get_is_using_hardware() on): values that fit the widths behave as specified
+    hcases = generate_hardware(ctx, 500 if quick else 5000, 4 if quick else 30, fuel)
+    n_h = len(hcases)
+    hres = evaluate(ctx, hcases, "hardware")
+    if hres is not None:
+        hopen = set(hres[2])
+        for i, c in enumerate(hcases):
+            ctx.note_case(("hw", c["cap"], json.dumps(c["subs"])),
+                          nontrivial=(sum(len(p) for p in c["subs"]) >= 3 and i not in hopen))
+        for i in hres[1]:
+            ctx.violation("hardware configuration: reference semantics (Sem.run) and the real Executor disagree "
+                          "inside the defined domain on values that fit the hardware widths",
+                          case_json(hcases[i]), key=None)
+        if hres[0] and not hres[1]:
+            ctx.broken.append(f"correspondence Exec.run_many vs real Executor (hardware configuration): "
+                              f"{len(hres[0])} differing cases, first: " + json.dumps(case_json(hcases[hres[0][0]]))[:600])
+        ctx.coverage["hardware_config_cases"] = len(hcases)
+        ctx.coverage["hardware_config_discarded_overflow_or_big"] = n_h - len(hcases)
+        ctx.coverage["hardware_config_model_mismatches"] = len(hres[0])
+        ctx.coverage["hardware_config_spec_mismatches"] = len(hres[1])
     # quantum stream: SemQ (target of the C05/C08/C10 bridges) vs the real Executor
     qcases = [H.gen_qcase(ctx.rng, fuel=fuel) for _ in range(500 if quick else 10000)]
     qres = evaluate_quantum(ctx, qcases, "quantum")
@@ -221,7 +260,8 @@ def search(ctx, fuel):
 
 def replay(ctx, path):
     rec = json.load(open(path))["replay"]
-    case = dict(cap=rec["cap"], fuel=rec["fuel"], subs=rec["subs"], tag=rec.get("tag", "replay"))
+    case = dict(cap=rec["cap"], fuel=rec["fuel"], subs=rec["subs"], tag=rec.get("tag", "replay"),
+                hostlines=bool(rec.get("hostlines")), hardware=bool(rec.get("hardware")))
     if "script" in rec:  # a case of the quantum stream
         case["script"] = rec["script"]
         qres = evaluate_quantum(ctx, [case], "replay")
